@@ -333,6 +333,8 @@ func anyCmp(x, y any) int {
 		return cmp.Compare(a, y.(SK))
 	case time.Time:
 		return a.Compare(y.(time.Time))
+	case *PS:
+		return psCmp(a, y.(*PS))
 	case HX:
 		b := y.(HX)
 		if a.P != b.P {
